@@ -504,7 +504,8 @@ pub fn run(args: &Args) -> i32 {
     }
 
     // ---------------------------------------------------------------- MPQS
-    let msizes: Vec<u32> = if thorough { vec![40, 50, 64, 80, 100, 120, 150, 180, 220, 260, 300] } else { vec![40, 64, 100, 140, 200] };
+    // tiny inputs (24..32 bits): D^2 < n < D^4, so that B (a square root of n modulo D^2) exceeds sqrt(n) and C > 0
+    let msizes: Vec<u32> = if thorough { vec![24, 28, 32, 36, 40, 50, 64, 80, 100, 120, 150, 180, 220, 260, 300] } else { vec![28, 32, 40, 64, 100, 140, 200] };
     for &bits in &msizes {
         for r8 in [1u64, 3, 5, 7] {
             let n0 = gen_n(&mut rng, bits, r8);
@@ -527,12 +528,20 @@ pub fn run(args: &Args) -> i32 {
                     Err(_) => vec![],
                 };
                 ds.truncate(if thorough { 12 } else { 5 });
-                // small D values (possibly inside the factor base): needs D^4 < n (C < 0) and C = (B^2 - n) / 4 D^2
-                // within 256 bits
-                if bits >= 40 && bits <= 220 {
+                // small D values (possibly inside the factor base): D^2 < n as mpqs() requires (for tiny n most of
+                // them have C > 0) and C = (B^2 - n) / 4 D^2 within 256 bits
+                if bits <= 220 {
                     if let Ok(mut v) = guard(|| mpqs::sieve_for_polys(&n, 3, 400)) {
                         v.retain(|(d, _)| Uint::from(*d as u64) * Uint::from(*d as u64) < n);
-                        v.truncate(3);
+                        if bits < 40 {
+                            // the largest ones (C > 0) and the smallest ones
+                            let m = v.len();
+                            let tail: Vec<_> = v.iter().skip(m.saturating_sub(6)).cloned().collect();
+                            v.truncate(2);
+                            v.extend(tail);
+                        } else {
+                            v.truncate(3);
+                        }
                         ds.extend(v);
                     }
                 }
